@@ -101,3 +101,18 @@ Proof.
   intros bad prog s pc N Hb Hne Hok f.
   destruct (qrun_fuel_stable N prog s pc f Hne) as [E|E]; rewrite E; assumption.
 Qed.
+
+Lemma qrun_mono : forall f prog s pc,
+  snd (qrun_from prog s pc f) <> OutOfFuel ->
+  forall f', (f <= f')%nat -> qrun_from prog s pc f' = qrun_from prog s pc f.
+Proof.
+  induction f as [|f IH]; intros prog s pc H f' Hle;
+    rewrite (qrun_eq prog s pc f'); rewrite qrun_eq in H; rewrite qrun_eq;
+    destruct (pc <? 0); try reflexivity;
+    destruct (Zlen prog <=? pc); try reflexivity;
+    destruct (nth_error prog (Z.to_nat pc)) as [i|]; try reflexivity.
+  - cbn in H. congruence.
+  - destruct f' as [|f']; [lia|].
+    destruct (qstep i s pc) as [s1 pc1|o]; [|reflexivity].
+    apply IH; [exact H|lia].
+Qed.
